@@ -357,8 +357,11 @@ func (p *protocolV2) messagePump(client *clientV2, startedChan chan bool) {
 				continue
 			}
 			msg.Attempts++
-			subChannel.StartInFlightTimeout(msg, client.ID, msgTimeout)
+			// count the message before it becomes answerable: once it is in the
+			// in-flight set this client's FIN/REQ (by an id it knows from an earlier
+			// delivery) or a timeout can take it out again and decrement the count
 			client.SendingMessage()
+			subChannel.StartInFlightTimeout(msg, client.ID, msgTimeout)
 			err = p.SendMessage(client, msg)
 			if err != nil {
 				goto exit
